@@ -564,9 +564,10 @@ fn one_session<C: Names + embedded_cli::service::Autocomplete + embedded_cli::se
         if (rt.clone(), rc) != after && (only.is_empty() || line_props.contains(&only)) {
             return Some(Cex { input: trace, expected: format!("line {:?} cursor {}", after.0, after.1), actual: format!("line {:?} cursor {}", rt, rc) });
         }
-        if (rt.clone(), rc) != after && matches!(only, "C06" | "C13" | "C14" | "C15" | "C02" | "C03") {
-            // checks that compare the sink with the *actual* editor state follow the real editor; checks about what the
-            // line should be (C01, C05, C07, C08, C10, C11, C12, C17) keep the ideal model
+        if (rt.clone(), rc) != after && matches!(only, "C06" | "C13" | "C14" | "C15" | "C02" | "C03" | "C10" | "C11" | "C16") {
+            // checks of one step at a time (display, framing, flushing, failures, history recall, completion, features)
+            // follow the real editor after every key, so that an earlier divergence is not counted again; checks about
+            // what the line should be after *everything* typed so far (C01, C05, C07, C08, C12, C17) keep the ideal model
             m.line = rt.chars().collect();
             m.cur = rc.min(m.line.len());
         }
